@@ -114,8 +114,16 @@ func runPlot(t *simrt.Tape, keep bool) simrt.Outcome {
 		}
 		sizes = append(sizes, n)
 		ts := base.Add(time.Duration(t.Choose(1000)) * time.Millisecond)
+		first := ts
 		for i := 0; i < n; i++ {
-			switch t.Choose(6) {
+			switch t.Choose(8) {
+			case 6: // nanosecond steps: the elapsed time is not a whole number of microseconds
+				ts = ts.Add(time.Duration(t.Choose(3000000)))
+			case 7: // elapsed time a few hundred nanoseconds either side of a whole millisecond
+				ms := ts.Sub(first)/time.Millisecond + time.Duration(1+t.Choose(3))
+				if c := first.Add(ms*time.Millisecond + time.Duration(t.Choose(3000)) - 1500); c.After(ts) {
+					ts = c
+				}
 			case 0: // same instant as the previous request
 			case 1:
 				ts = ts.Add(time.Duration(t.Choose(1000)) * time.Microsecond)
